@@ -323,6 +323,22 @@ class CompMixin:
     b['True'] = Vl.bval(True)
     b['NotImplemented'] = Vl.Sentinel('NotImplemented')
     b['hash'] = B('hash', _b_hash)
+    # C++ front end (engine/cxxfront.py)
+    I32 = 2 ** 31
+    b['chk_int'] = B('chk_int', lambda ex, a, k, n: _chk(ex, a[0], -I32, I32 - 1, 'int arithmetic stays in range (signed overflow is UB)'))
+    b['chk_size'] = B('chk_size', lambda ex, a, k, n: _chk(ex, a[0], 0, 2 ** 64 - 1, 'size_t arithmetic does not wrap'))
+    b['to_int'] = B('to_int', lambda ex, a, k, n: _chk(ex, a[0], -I32, I32 - 1, 'value fits in int'))
+    b['to_size'] = B('to_size', lambda ex, a, k, n: _chk(ex, a[0], 0, 2 ** 64 - 1, 'int converted to size_t is non-negative'))
+    b['cdiv'] = B('cdiv', _b_cdiv)
+    b['iand'] = B('iand', _b_iand)
+    b['cmod'] = B('cmod', lambda ex, a, k, n: (_chk(ex, a[0], 0, None, 'dividend non-negative'), _chk(ex, a[1], 1, None, 'divisor positive'), V(S.INT, ex.as_int(a[0]) % ex.as_int(a[1])))[2])
+    b['bv'] = B('bv', lambda ex, a, k, n: V(S.BV64, z3.BitVecVal(z3.simplify(ex.as_int(a[0])).as_long(), 64)))
+    b['bv_of_int'] = B('bv_of_int', _b_bv_of_int)
+    b['bvand'] = B('bvand', lambda ex, a, k, n: V(S.BV64, a[0].t & a[1].t))
+    b['bvor'] = B('bvor', lambda ex, a, k, n: V(S.BV64, a[0].t | a[1].t))
+    b['bvnz'] = B('bvnz', lambda ex, a, k, n: V(S.BOOL, a[0].t != z3.BitVecVal(0, 64)))
+    b['bvshl'] = B('bvshl', _b_bvshl)
+    b['vresize'] = B('vresize', _b_vresize)
     b['itertools.chain'] = B('chain', _b_chain)
     b['id'] = B('id', lambda ex, a, k, n: Vl.ival(id(a[0])))
     b['False'] = Vl.bval(False)
@@ -588,3 +604,65 @@ def _b_store(ex, a, k, n):
   q, i, v = a
   s = q.sort
   return V(s, s.mk(z3.Store(s.arr(q.t), ex.as_int(i), ex.coerce(v, s.elem).t), s.len(q.t)))
+
+
+def _chk(ex, v, lo, hi, what):
+  t = ex.as_int(v)
+  conds = []
+  if lo is not None:
+    conds.append(t >= lo)
+  if hi is not None:
+    conds.append(t <= hi)
+  ex.oblige(z3.And(*conds), 'safety', what)
+  return V(S.INT, t)
+
+
+def _b_cdiv(ex, a, k, n):
+  x, y = ex.as_int(a[0]), ex.as_int(a[1])
+  ex.oblige(z3.And(x >= 0, y > 0), 'safety', 'C++ `/` modelled for non-negative dividend and positive divisor')
+  return V(S.INT, x / y)
+
+
+def _b_iand(ex, a, k, n):
+  x, m = ex.as_int(a[0]), z3.simplify(ex.as_int(a[1]))
+  if not z3.is_int_value(m) or (m.as_long() + 1) & m.as_long():
+    raise Unsupported('int & with a mask that is not 2^k-1')
+  ex.oblige(x >= 0, 'safety', 'C++ `& %d` modelled as mod for a non-negative operand' % m.as_long())
+  return V(S.INT, x % (m.as_long() + 1))
+
+
+def _b_bv_of_int(ex, a, k, n):
+  t = z3.simplify(ex.as_int(a[0]))
+  if z3.is_int_value(t):
+    return V(S.BV64, z3.BitVecVal(t.as_long(), 64))
+  return V(S.BV64, z3.Int2BV(t, 64))
+
+
+def _b_bvshl(ex, a, k, n):
+  """a << k.  Only `1 << k` is modelled: the table function pow2_64 (A-SHIFT)."""
+  lhs = z3.simplify(a[0].t)
+  if not (z3.is_bv_value(lhs) and lhs.as_long() == 1):
+    raise Unsupported('left shift of a value other than the constant 1')
+  kk = ex.as_int(a[1])
+  ex.oblige(z3.And(0 <= kk, kk < 64), 'safety', 'shift amount within the word')
+  return V(S.BV64, S.POW2(kk))
+
+
+def _b_vresize(ex, a, k, n):
+  """std::vector::resize(n[, fill]) (library contract assumed: A-STL)."""
+  v = a[0]
+  s = v.sort
+  newlen = ex.as_int(a[1])
+  if len(a) > 2:
+    fill = ex.coerce(a[2], s.elem).t
+  elif isinstance(s.elem, S.Seq):
+    fill = s.elem.mk(z3.K(z3.IntSort(), s.elem.elem.fresh('dflt') if not s.elem.elem is S.BV64 else z3.BitVecVal(0, 64)), z3.IntVal(0))
+  else:
+    raise Unsupported('resize without fill on %s' % s)
+  old = s.len(v.t)
+  arr = z3.FreshConst(z3.ArraySort(z3.IntSort(), s.elem.z3()), 'resized')
+  p = z3.FreshConst(z3.IntSort(), 'p')
+  ex.assume(z3.ForAll([p], z3.Implies(z3.And(0 <= p, p < old), z3.Select(arr, p) == s.at(v.t, p)),
+                      patterns=[z3.Select(arr, p)]))
+  ex.assume(z3.ForAll([p], z3.Implies(p >= old, z3.Select(arr, p) == fill), patterns=[z3.Select(arr, p)]))
+  return V(s, s.mk(arr, newlen))
